@@ -41,6 +41,12 @@ def handle (line : String) : String :=
       | .ok c => "ok " ++ path ++ " " ++ toHex c
       | .error e => "err " ++ e.tag
     | _, _, _, _, _, _, _, _ => "bad-op"
+  | ["decdata", pt] => match ofHex pt with
+    | some pt =>
+      match decodeData pt with
+      | .ok d => s!"ok {d.salt} {d.sid} {d.mid} {d.seq} {d.len} {toHex d.body} data={toHex d.payload}"
+      | .error e => "err " ++ e.tag
+    | none => "bad-op"
   | ["dec", s, ak, kid, c] =>
     match side? s, ofHex ak, ofHex kid, ofHex c with
     | some s, some ak, some kid, some c =>
